@@ -666,3 +666,224 @@ func derivesFieldChan(c *Ctx, v ssa.Value, owner, field string) bool {
 	_, f := loadedField(v)
 	return f != nil && f.Name() == field && c.ownerName(f) == owner
 }
+
+const textC12Deadline = "R-C12-deadline: the timer of the blocking wait is armed with a remaining time — a duration obtained from time.Until / Time.Sub inside the function that arms it — never with the command's full timeout: the wait is repeated after a wake-up whose retry finds nothing, and re-arming the full timeout would let the command end later than t"
+
+func ruleC12Deadline(c *Ctx) {
+	c.S.Rule("R-C12-deadline", textC12Deadline, 1)
+	a := c.blocking()
+	if len(a.errs) > 0 || a.sel == nil {
+		c.S.Undecided("R-C12-deadline", "anchors", "-", strings.Join(a.errs, "; "))
+		return
+	}
+	n := 0
+	for _, st := range a.sel.States {
+		if !isTimerC(st.Chan) {
+			continue
+		}
+		// the timer object
+		u := st.Chan.(*ssa.UnOp)
+		tm := u.X.(*ssa.FieldAddr).X
+		call, ok := tm.(*ssa.Call)
+		if !ok {
+			if ld, ok2 := tm.(*ssa.UnOp); ok2 {
+				// timer kept in a local cell
+				if al, ok3 := ld.X.(*ssa.Alloc); ok3 {
+					for _, r := range referrers(al) {
+						if s2, ok4 := r.(*ssa.Store); ok4 && s2.Addr == ssa.Value(al) {
+							call, ok = s2.Val.(*ssa.Call)
+						}
+					}
+				}
+			}
+		}
+		n++
+		key := fmt.Sprintf("%s:timer#%d", fnName(a.selectFn), n)
+		if call == nil || len(call.Call.Args) == 0 {
+			c.S.Undecided("R-C12-deadline", key, c.Pos(a.sel.Pos()), "the creation of the wait timer could not be found")
+			continue
+		}
+		remaining := false
+		var walk func(v ssa.Value, d int)
+		seen := map[ssa.Value]bool{}
+		walk = func(v ssa.Value, d int) {
+			if v == nil || seen[v] || d > 10 {
+				return
+			}
+			seen[v] = true
+			switch x := v.(type) {
+			case *ssa.Call:
+				name := fullCalleeName(x)
+				if name == "time.Until" || name == "(time.Time).Sub" {
+					remaining = true
+					return
+				}
+				for _, ar := range x.Call.Args {
+					walk(ar, d+1)
+				}
+			case *ssa.BinOp:
+				walk(x.X, d+1)
+				walk(x.Y, d+1)
+			case *ssa.Convert:
+				walk(x.X, d+1)
+			case *ssa.ChangeType:
+				walk(x.X, d+1)
+			case *ssa.Phi:
+				for _, e := range x.Edges {
+					walk(e, d+1)
+				}
+			case *ssa.UnOp:
+				if al, ok := x.X.(*ssa.Alloc); ok {
+					for _, r := range referrers(al) {
+						if s2, ok := r.(*ssa.Store); ok && s2.Addr == ssa.Value(al) {
+							walk(s2.Val, d+1)
+						}
+					}
+				}
+			}
+		}
+		walk(call.Call.Args[0], 0)
+		if remaining {
+			c.S.OK("R-C12-deadline", key, c.Pos(call.Pos()), "the timer is armed with the time remaining until the deadline")
+		} else {
+			c.S.Bad("R-C12-deadline", key, c.Pos(call.Pos()), "the wait timer is armed with a duration that is not computed from the clock where it is armed (no time.Until / Time.Sub): every repetition of the wait gets the full timeout again")
+		}
+	}
+	if n == 0 {
+		c.S.Undecided("R-C12-deadline", "timer", c.Pos(a.sel.Pos()), "the blocking select has no timer arm")
+	}
+}
+
+const textC12Agree = "R-C12-timeout-agree: every blocking command converts its timeout argument to the worker's nanosecond parameter by the same expression (sibling agreement over the call sites of the block helpers): a command that converts differently (other unit, an extra truncation) waits a different time than its siblings for the same argument, and a sub-unit timeout can become 0 = wait forever"
+
+func ruleC12TimeoutAgree(c *Ctx) {
+	c.S.Rule("R-C12-timeout-agree", textC12Agree, 3)
+	a := c.blocking()
+	if len(a.errs) > 0 || a.worker == nil {
+		c.S.Undecided("R-C12-timeout-agree", "anchors", "-", strings.Join(a.errs, "; "))
+		return
+	}
+	// helpers: the worker and functions that pass an int64 parameter straight on to it
+	type hp struct {
+		fn  *ssa.Function
+		idx int
+	}
+	var helpers []hp
+	for i, p := range a.worker.Params {
+		if b, ok := p.Type().Underlying().(*types.Basic); ok && b.Kind() == types.Int64 {
+			helpers = append(helpers, hp{a.worker, i})
+		}
+	}
+	for changed := true; changed; {
+		changed = false
+		for _, fn := range c.SrcFuncs() {
+			for _, in := range instrsOf(fn) {
+				call, ok := in.(*ssa.Call)
+				if !ok {
+					continue
+				}
+				g := call.Call.StaticCallee()
+				for _, h := range helpers {
+					if g != h.fn || h.idx >= len(call.Call.Args) {
+						continue
+					}
+					if p, ok := call.Call.Args[h.idx].(*ssa.Parameter); ok {
+						for i, q := range fn.Params {
+							if q == p {
+								dup := false
+								for _, h2 := range helpers {
+									if h2.fn == fn && h2.idx == i {
+										dup = true
+									}
+								}
+								if !dup {
+									helpers = append(helpers, hp{fn, i})
+									changed = true
+								}
+							}
+						}
+					}
+				}
+			}
+		}
+	}
+	var canon func(v ssa.Value, d int) string
+	canon = func(v ssa.Value, d int) string {
+		if d > 10 {
+			return "…"
+		}
+		switch x := v.(type) {
+		case *ssa.Const:
+			if x.Value == nil {
+				return "nil"
+			}
+			return x.Value.String()
+		case *ssa.Convert:
+			return types.TypeString(x.Type(), func(*types.Package) string { return "" }) + "(" + canon(x.X, d+1) + ")"
+		case *ssa.ChangeType:
+			return canon(x.X, d+1)
+		case *ssa.BinOp:
+			return "(" + canon(x.X, d+1) + " " + x.Op.String() + " " + canon(x.Y, d+1) + ")"
+		case *ssa.TypeAssert:
+			return canon(x.X, d+1)
+		case *ssa.Extract:
+			return canon(x.Tuple, d+1)
+		case *ssa.Lookup:
+			return "args[" + canon(x.Index, d+1) + "]"
+		case *ssa.Call:
+			s := fullCalleeName(x) + "("
+			for i, ar := range x.Call.Args {
+				if i > 0 {
+					s += ","
+				}
+				s += canon(ar, d+1)
+			}
+			return s + ")"
+		}
+		return "?" + v.Type().String()
+	}
+	type site struct {
+		fn   *ssa.Function
+		call *ssa.Call
+		expr string
+	}
+	var sites []site
+	for _, fn := range c.SrcFuncs() {
+		for _, in := range instrsOf(fn) {
+			call, ok := in.(*ssa.Call)
+			if !ok {
+				continue
+			}
+			g := call.Call.StaticCallee()
+			for _, h := range helpers {
+				if g != h.fn || h.idx >= len(call.Call.Args) {
+					continue
+				}
+				if _, isParam := call.Call.Args[h.idx].(*ssa.Parameter); isParam {
+					continue
+				}
+				sites = append(sites, site{fn, call, canon(call.Call.Args[h.idx], 0)})
+			}
+		}
+	}
+	cnt := map[string]int{}
+	for _, s := range sites {
+		cnt[s.expr]++
+	}
+	best, bn := "", 0
+	for e, k := range cnt {
+		if k > bn || (k == bn && e < best) {
+			best, bn = e, k
+		}
+	}
+	ord := map[string]int{}
+	for _, s := range sites {
+		ord[fnName(s.fn)]++
+		key := fmt.Sprintf("%s:timeout#%d", fnName(s.fn), ord[fnName(s.fn)])
+		if s.expr == best {
+			c.S.OK("R-C12-timeout-agree", key, c.Pos(s.call.Pos()), "converts the timeout as "+s.expr)
+		} else {
+			c.S.Bad("R-C12-timeout-agree", key, c.Pos(s.call.Pos()), fmt.Sprintf("%s converts its timeout as %s while %d sibling(s) use %s", fnName(s.fn), s.expr, bn, best))
+		}
+	}
+}
